@@ -4,6 +4,7 @@ import Poulpy.Lemmas.CkksContract
 import Poulpy.Lemmas.CkksPt
 import Poulpy.Lemmas.CkksMulComp
 import Poulpy.Model.CkksMulData
+import Poulpy.Lemmas.CkksAut
 /-!
 # C16 — the CKKS evaluator tracks precision metadata through any straight-line program
 
@@ -1035,6 +1036,116 @@ example : dMulInto env4 2 ⟨false, zk4⟩ xProd xA xTwo
     ∃ m, mulInto env4 xProd.ct xA.ct xTwo.ct = .ok m ∧ (⟨0, 0⟩ : Meta) = m.md :=
   ⟨by rfl, mul_data_meta (N := 2) (mk := ⟨false, zk4⟩) (dst := xProd) (a := xA) (b := xTwo)
     (c' := ⟨{ base2k := 4, k := 4, n := 2, cols := [[[-6, -4]], [[4, 4]]] }, ⟨0, 0⟩⟩) (by rfl)⟩
+
+/-! ### rotation and conjugation on the data path — `AutContract` discharged
+
+`dRotateInto`, `dRotateAssign`, `dConjInto`, `dConjAssign` call C03's executable `Ks.automorphism` (key switch with both radix
+conversions, then `vec_znx_automorphism_assign(g)`), tied limb for limb with the real automorphism keys.  Their value theorems come
+from C03's end-to-end `glwe_automorphism_decrypts` (an identity in `ℤ[X]/(X^N+1)`), read coefficient by coefficient through
+`Ks.ι_injective` / `Ks.ι_surjective` (`Lemmas/IotaBij.lean`, `ring_to_coeff`).  What is still assumed is `AutAdm`: the hypotheses C03
+asks of the executed call — the automorphism key is a gadget encryption of the secret under `σ_{g⁻¹}(secret)` with error lists `EL`,
+`g` admissible with inverse on the secret, digit and accumulator head-room, covered shape.  `autU` is the four-term bound of
+`glwe_keyswitch_decrypts` (conversion rounding, gadget noise `Σ‖digit‖₁‖E‖∞`, dropped limbs, final rounding) in units of the last limb;
+`autDecC s N g a t` is coefficient `t` of `σ_g` applied to the decoded polynomial of `a`. -/
+
+open KsDec in
+/-- **`ckks_rotate_assign`** -/
+theorem rotate_assign_data_sem {env : Env} (he : EnvOK env) {N r : Nat} (hN : 0 < N) {c : DCt} (hc : DOK env N r c) {big : Bool} {ks : AutKeys}
+    {k : Int} {key : Ks.Key} {m : Ct} (hm : rotateAssign env c.ct k = .ok m) (hk : ks.get k = some key)
+    {s : List Poly} {gInv : Int} {EL KL : ℕ → ℕ → Poly} {Hin Hp : Int} (h : AutAdm big N c.g key s gInv EL KL Hin Hp c.g.rank) :
+    ∃ c', dRotateAssign env N big ks c k = .ok c' ∧ c'.md = m.md ∧ C02L.GWF N c'.g ∧ c'.g.size = c.g.size ∧
+      ∀ t, t < N → Near (decC s c' t) (autDecC s N key.p c t) (wrap c')
+        (autU N c.g.base2k c.g.size c.g.rank c.g key s gInv EL * ulp c') :=
+  dRotateAssign_sem he hN hc hm hk h
+
+/-- C03's closed instance (`N = 2`, `g = 3`, secret `1 + X`, radix `2^4`) as a CKKS ciphertext -/
+def xRot : DCt := ⟨KsDec.exCtN2, ⟨2, 2⟩⟩
+def xRot_ok : DOK env4 2 1 xRot := ⟨by decide, rfl, rfl, by decide⟩
+def xRot_adm (big : Bool) : AutAdm big 2 xRot.g KsDec.exKeyG3 KsDec.exSk2 3 KsDec.exELG3 (fun _ _ => [0, 0]) 2 2 xRot.g.rank where
+  hg := KsDec.exG3_ok
+  hsk := by intro p hp; simp [KsDec.exSk2] at hp; subst hp; rfl
+  hinv := by intro s hs; simp [KsDec.exSk2] at hs; subst hs; decide
+  hrank := by decide
+  hrout := rfl
+  hc0 := by decide
+  hD := by decide
+  hM := Ks.entry_length KsDec.exKeyG3.mat 2 rfl (by decide)
+  hS := by decide
+  hbk1 := by decide
+  hbk := by decide
+  hIn0 := by norm_num
+  hIn := by norm_num
+  hInB := by intro c hc l hl x hx; revert x l c; decide
+  hHp0 := by norm_num
+  hAcc := by cases big <;> (show (2 : ℤ) + (2 + 2 ^ 4) + 8 ≤ _; norm_num [KsDec.bitsOf])
+  hprod := KsDec.exG3_prod
+  hs := by decide
+  hEL := fun i r => Ks.keyErrL_length 2 4 _ KsDec.exKeyG3 _ i r (by decide) (Ks.entry_length KsDec.exKeyG3.mat 2 rfl (by decide)) (fun _ => rfl)
+  hKL := fun _ _ => rfl
+  hkey := fun i hi r _ => KsDec.exG3_key i hi r
+  hcov1 := by decide
+  hcov2 := by decide
+
+example (big : Bool) : ∃ c', dRotateAssign ⟨4, [1], 53⟩ 2 big ⟨[(1, KsDec.exKeyG3)], none⟩ xRot 1 = .ok c' ∧
+    ∀ t, t < 2 → Near (decC KsDec.exSk2 c' t) (autDecC KsDec.exSk2 2 3 xRot t) (wrap c')
+      (autU 2 4 1 1 xRot.g KsDec.exKeyG3 KsDec.exSk2 3 KsDec.exELG3 * ulp c') :=
+  let ⟨c', h, _, _, _, hv⟩ := rotate_assign_data_sem (env := env4) env4_ok (by norm_num) xRot_ok (big := big)
+    (ks := ⟨[(1, KsDec.exKeyG3)], none⟩) (k := 1) (m := xRot.ct) (by decide) rfl (xRot_adm big)
+  ⟨c', h, hv⟩
+
+open KsDec in
+/-- **`ckks_conjugate_assign`** -/
+theorem conj_assign_data_sem {env : Env} (he : EnvOK env) {N r : Nat} (hN : 0 < N) {c : DCt} (hc : DOK env N r c) {big : Bool} {ks : AutKeys}
+    {key : Ks.Key} (hk : ks.conj = some key)
+    {s : List Poly} {gInv : Int} {EL KL : ℕ → ℕ → Poly} {Hin Hp : Int} (h : AutAdm big N c.g key s gInv EL KL Hin Hp c.g.rank) :
+    ∃ c', dConjAssign env N big ks c = .ok c' ∧ c'.md = c.md ∧ C02L.GWF N c'.g ∧ c'.g.size = c.g.size ∧
+      ∀ t, t < N → Near (decC s c' t) (autDecC s N key.p c t) (wrap c')
+        (autU N c.g.base2k c.g.size c.g.rank c.g key s gInv EL * ulp c') :=
+  dConjAssign_sem he hN hc hk h
+
+example (big : Bool) : ∃ c', dConjAssign env4 2 big ⟨[], some KsDec.exKeyG3⟩ xRot = .ok c' ∧ c'.md = xRot.md :=
+  let ⟨c', h, hm, _⟩ := conj_assign_data_sem (env := env4) env4_ok (by norm_num) xRot_ok (big := big)
+    (ks := ⟨[], some KsDec.exKeyG3⟩) rfl (xRot_adm big)
+  ⟨c', h, hm⟩
+
+open KsDec in
+/-- **`ckks_rotate_into`** (aligned copy first when the destination is narrower: `AutAdm` is then asked of the copy) -/
+theorem rotate_into_data_sem {env : Env} (he : EnvOK env) {N r : Nat} (hN : 0 < N) {dst a : DCt} (hd : DOK env N r dst) (ha : DOK env N r a)
+    {big : Bool} {ks : AutKeys} {k : Int} {key : Ks.Key} {m : Ct} (hm : rotateInto env dst.ct a.ct k = .ok m) (hk : ks.get k = some key)
+    {s : List Poly} {gInv : Int} {EL KL : ℕ → ℕ → Poly} {Hin Hp : Int}
+    (h0 : offsetUnary env dst.ct a.ct = 0 → AutAdm big N a.g key s gInv EL KL Hin Hp dst.g.rank)
+    (h1 : ∀ g1, glweLsh N dst.g a.g (unaryShift env dst.ct a.ct 0) = .ok g1 → AutAdm big N g1 key s gInv EL KL Hin Hp g1.rank) :
+    ∃ c' U, dRotateInto env N big ks dst a k = .ok c' ∧ c'.md = m.md ∧ C02L.GWF N c'.g ∧ c'.g.size = dst.g.size ∧
+      ∀ t, t < N → Near (decC s c' t) (autDecC s N key.p a t) (wrap c')
+        ((U + sn r s * trl env.base2k dst.g.size a.g.size (unaryShift env dst.ct a.ct 0)) * ulp c') :=
+  dRotateInto_sem he hN hd ha hm hk h0 h1
+
+open KsDec in
+/-- **`ckks_conjugate_into`** -/
+theorem conj_into_data_sem {env : Env} (he : EnvOK env) {N r : Nat} (hN : 0 < N) {dst a : DCt} (hd : DOK env N r dst) (ha : DOK env N r a)
+    {big : Bool} {ks : AutKeys} {key : Ks.Key} {m : Ct} (hm : mulPow2Into env dst.ct a.ct 0 = .ok m) (hk : ks.conj = some key)
+    {s : List Poly} {gInv : Int} {EL KL : ℕ → ℕ → Poly} {Hin Hp : Int}
+    (h0 : offsetUnary env dst.ct a.ct = 0 → AutAdm big N a.g key s gInv EL KL Hin Hp dst.g.rank)
+    (h1 : ∀ g1, glweLsh N dst.g a.g (unaryShift env dst.ct a.ct 0) = .ok g1 → AutAdm big N g1 key s gInv EL KL Hin Hp g1.rank) :
+    ∃ c' U, dConjInto env N big ks dst a = .ok c' ∧ c'.md = m.md ∧ C02L.GWF N c'.g ∧ c'.g.size = dst.g.size ∧
+      ∀ t, t < N → Near (decC s c' t) (autDecC s N key.p a t) (wrap c')
+        ((U + sn r s * trl env.base2k dst.g.size a.g.size (unaryShift env dst.ct a.ct 0)) * ulp c') :=
+  dConjInto_sem he hN hd ha hm hk h0 h1
+
+deriving instance DecidableEq for Core.GLWE
+deriving instance DecidableEq for Outcome
+
+/-- the aligned copy of `xRot` into a destination of its own size is `xRot` -/
+def xRot_copy : glweLsh 2 xRot.g xRot.g (unaryShift (⟨4, [1], 53⟩ : Env) xRot.ct xRot.ct 0) = .ok xRot.g := by decide +kernel
+
+/-- same-size destination: nothing to pay, the automorphism reads `xRot` directly -/
+example (big : Bool) : ∃ c', dRotateInto ⟨4, [1], 53⟩ 2 big ⟨[(1, KsDec.exKeyG3)], none⟩ xRot xRot 1 = .ok c' ∧ c'.md = xRot.md := by
+  obtain ⟨c', _, h, hm, _⟩ := rotate_into_data_sem (env := ⟨4, [1], 53⟩) (dst := xRot) (a := xRot) ⟨by decide, by decide⟩ (by norm_num)
+    xRot_ok xRot_ok (big := big) (ks := ⟨[(1, KsDec.exKeyG3)], none⟩) (k := 1) (m := xRot.ct) (by decide) rfl
+    (fun _ => xRot_adm big) (fun g1 hg1 => by
+      have e := xRot_copy
+      rw [e] at hg1; injection hg1 with hg1; subst hg1; exact xRot_adm big)
+  exact ⟨c', h, hm⟩
 
 end Exact
 
